@@ -629,6 +629,42 @@ func checkCutN(p *drv.Plan, recs []*stepRec, ri int, rec *stepRec, cut int, cls 
 	// writes for the same version number, then a restart) - "the state before the
 	// operation" must hold for whatever follows, not only for the retry.
 	other := nested && state == "old" && rec.step.Op != drv.OpExpImp && r.Chance(1, 3)
+	// mode "nested": a second stop at a boundary between two physical writes of
+	// the recovery itself - the open on the crash image (which rebuilds the fast
+	// index when the label does not fit) and what the application did next (the
+	// repeated operation, or other writes and their commit). The image must again
+	// show the state the first image showed or the state reached, and recover.
+	secondStops := func() (string, *drv.Violation) {
+		n2 := w2.Sim.LogLen()
+		if n2 < 2 {
+			return "", nil
+		}
+		rec2 := &stepRec{step: rec.step, idx: rec.idx, lo: 0, hi: n2, disk: w2.Sim, preM: stM, preT: stT, postM: w2.M.Clone(), postT: w2.T.Clone(), cleanAfter: rec.cleanAfter, orig: rec.self()}
+		pick := map[int]bool{}
+		max := 3
+		if n2-1 <= max {
+			for c := 1; c < n2; c++ {
+				pick[c] = true
+			}
+		} else {
+			pick[1], pick[n2-1] = true, true
+			for len(pick) < max {
+				pick[1+r.Intn(n2-1)] = true
+			}
+		}
+		for c := 1; c < n2; c++ {
+			if !pick[c] {
+				continue
+			}
+			if ns != nil {
+				ns.second++
+			}
+			if o2, v := checkCutN(p, recs, ri, rec2, c, cls, 1, ns); v != nil {
+				return o2, v
+			}
+		}
+		return "", nil
+	}
 	if other {
 		if ns != nil {
 			ns.other++
@@ -651,7 +687,13 @@ func checkCutN(p *drv.Plan, recs []*stepRec, ri int, rec *stepRec, cut int, cls 
 		}
 		f, c := !w2.Fast, r.Pick(0, 2, 1000)
 		steps = append(steps, drv.Step{ID: id, Op: drv.OpSave}, drv.Step{ID: id + 1, Op: drv.OpReopen, Fast: &f, Cache: &c})
-		for _, st := range steps {
+		for i, st := range steps {
+			if i == len(steps)-1 {
+				// before the restart: a second stop inside the commit of the other writes
+				if o2, v := secondStops(); v != nil {
+					return "old+other+2nd:" + o2, v
+				}
+			}
 			if v := w2.Apply(st); v != nil {
 				return "old+other-fails", &drv.Violation{Prop: "C05", Oracle: "C05.continue", Symptom: "retry-diverges", Class: cls, Detail: fmt.Sprintf("%safter a stop at write %d of step %s the image showed the old state, but going on with other writes (%s) failed: %s", where, cut-rec.lo, rec.step.String(), st.String(), v.Error())}
 			}
@@ -679,36 +721,9 @@ func checkCutN(p *drv.Plan, recs []*stepRec, ri int, rec *stepRec, cut int, cls 
 			return "old+retry-diverges", &drv.Violation{Prop: "C05", Oracle: "C05.retry", Symptom: "retry-diverges", Class: cls, Detail: fmt.Sprintf("%safter a stop at write %d of step %s and a successful retry: %s", where, cut-rec.lo, rec.step.String(), v.Error())}
 		}
 	}
-	// mode "nested": a second stop at a boundary between two physical writes of
-	// the recovery itself - the open on the crash image (which rebuilds the fast
-	// index when the label does not fit) and the repeated operation. The image
-	// must again show the state the first image showed or the final state.
 	if nested && !other {
-		if n2 := w2.Sim.LogLen(); n2 >= 2 {
-			rec2 := &stepRec{step: rec.step, idx: rec.idx, lo: 0, hi: n2, disk: w2.Sim, preM: stM, preT: stT, postM: w2.M.Clone(), postT: w2.T.Clone(), cleanAfter: rec.cleanAfter, orig: rec.self()}
-			pick := map[int]bool{}
-			max := 3
-			if n2-1 <= max {
-				for c := 1; c < n2; c++ {
-					pick[c] = true
-				}
-			} else {
-				pick[1], pick[n2-1] = true, true
-				for len(pick) < max {
-					pick[1+r.Intn(n2-1)] = true
-				}
-			}
-			for c := 1; c < n2; c++ {
-				if !pick[c] {
-					continue
-				}
-				if ns != nil {
-					ns.second++
-				}
-				if o2, v := checkCutN(p, recs, ri, rec2, c, cls, 1, ns); v != nil {
-					return state + "+2nd:" + o2, v
-				}
-			}
+		if o2, v := secondStops(); v != nil {
+			return state + "+2nd:" + o2, v
 		}
 	}
 	if w2.Clean() {
